@@ -1,5 +1,696 @@
-"""ESCAPE engine (stub - filled in below)."""
+"""ESCAPE engine: which exception classes may leave an entry point (DESIGN.md 3.3).
+
+May-escape sets per (function, receiver context, class-valued arguments), memoised summaries solved to a fixpoint over
+the resolved call graph; explicit `raise`, `assert`, re-raise and calls, minus what enclosing handlers catch.
+Implicit exceptions (index, key, struct, attribute, zero division) are not inferred here: each has its own rule.
+Nothing is executed.
+"""
+import ast
+import builtins
+
+from .model import UNKNOWN, ClassRef, FuncRef, ClassInfo, ExternalRef, OpInt, AnalysisError, norm, walk_no_nested
+from .resolve import Resolver, bind_args, Target
+from .table import Tracer
+from .rules import canon_guard
+from . import flow
+
+ITER_BUILTINS = {'list', 'tuple', 'set', 'frozenset', 'sorted', 'iter', 'next', 'enumerate', 'sum', 'any', 'all', 'bytes', 'b"".join', "b''.join", 'len', 'repr', 'str'}
+
+
+class Esc(object):
+    __slots__ = ('cls', 'info', 'fi', 'node', 'text', 'path')
+
+    def __init__(self, cls, info, fi, node, text, path=()):
+        self.cls, self.info, self.fi, self.node, self.text, self.path = cls, info, fi, node, text, path
+
+    def key(self):
+        return (self.cls, self.fi.qualname, self.text)
+
+    def site(self):
+        return '%s:%d' % (self.fi.module.relpath, getattr(self.node, 'lineno', 0))
+
+    def via(self, step):
+        if self.path and self.path[0] == step:
+            return self
+        return Esc(self.cls, self.info, self.fi, self.node, self.text, (step,) + self.path)
+
+
+def builtin_exc(name):
+    o = getattr(builtins, name, None)
+    if isinstance(o, type) and issubclass(o, BaseException):
+        return o
+    return None
+
+
+class Escape(object):
+    def __init__(self, repo, resolver, dead_sites=None):
+        self.repo = repo
+        self.res = resolver
+        self.memo = {}
+        self.active = set()
+        self.changed = False
+        self.unresolved = {}
+        self.applied = []  # contract classes / dead sites applied (printed in evidence)
+        self.visited = set()
+        self.dead = dead_sites or {}
+        self.recursion = set()
+        self.kinds = {}
+
+    # ------------------------------------------------------------------ exception classes
+    def exc_class(self, e, fi, ctx, class_args):
+        """-> (name, ClassInfo|None) of the exception a `raise e` raises, or (None, None) if unknown"""
+        if isinstance(e, ast.Call):
+            f = e.func
+            if isinstance(f, ast.Name) and class_args and f.id in class_args:
+                ci = class_args[f.id]
+                return ci.name, ci
+            v = self.repo.fold(f, fi.module, cls=fi.cls)
+            if isinstance(v, ClassRef):
+                return v.info.name, v.info
+            if isinstance(v, ExternalRef) and builtin_exc(v.name.split('.')[-1]):
+                return v.name.split('.')[-1], None
+            if isinstance(f, ast.Name) and builtin_exc(f.id):
+                return f.id, None
+            return None, None
+        if isinstance(e, ast.Name):
+            if class_args and e.id in class_args:
+                return class_args[e.id].name, class_args[e.id]
+            v = self.repo.fold(e, fi.module, cls=fi.cls)
+            if isinstance(v, ClassRef):
+                return v.info.name, v.info
+            if builtin_exc(e.id):
+                return e.id, None
+        if isinstance(e, ast.Attribute):
+            v = self.repo.fold(e, fi.module, cls=fi.cls)
+            if isinstance(v, ClassRef):
+                return v.info.name, v.info
+        return None, None
+
+    def handler_types(self, h, fi):
+        """list of (name, ClassInfo|None); [] for a bare except"""
+        if h.type is None:
+            return []
+        ts = h.type.elts if isinstance(h.type, ast.Tuple) else [h.type]
+        out = []
+        for t in ts:
+            v = self.repo.fold(t, fi.module, cls=fi.cls)
+            if isinstance(v, ClassRef):
+                out.append((v.info.name, v.info))
+            else:
+                out.append((norm(t).split('.')[-1], None))
+        return out
+
+    def catches(self, htypes, esc):
+        if not htypes:
+            return True
+        for hn, hi in htypes:
+            if hi is not None:
+                if esc.info is not None and self.repo.is_subclass(esc.info, hi):
+                    return True
+                continue
+            hb = builtin_exc(hn)
+            if hb is None:
+                continue
+            if esc.info is not None:
+                for k in self.repo.mro(esc.info):
+                    if isinstance(k, str):
+                        kb = builtin_exc(k.split('.')[-1])
+                        if kb is not None and issubclass(kb, hb):
+                            return True
+                    elif isinstance(k, ClassInfo):
+                        continue
+            else:
+                eb = builtin_exc(esc.cls)
+                if eb is not None and issubclass(eb, hb):
+                    return True
+        return False
+
+    def in_family(self, esc, families):
+        """families: list of ClassInfo or builtin names"""
+        for f in families:
+            if isinstance(f, ClassInfo):
+                if esc.info is not None and self.repo.is_subclass(esc.info, f):
+                    return True
+            else:
+                if self.catches([(f, None)], esc):
+                    return True
+        return False
+
+    # ------------------------------------------------------------------ summaries
+    def function(self, fi, ctx=None, class_args=None, depth=0, kinds=None):
+        ctx = ctx or fi.cls
+        class_args = class_args or {}
+        kinds = dict(kinds or {})
+        key = (fi.qualname, ctx.qualname if ctx else None, tuple(sorted((k, v.qualname) for k, v in class_args.items())), tuple(sorted(kinds.items())))
+        if key in self.memo:
+            return self.memo[key]
+        if key in self.active:
+            self.recursion.add(fi.qualname)
+            return []
+        self.active.add(key)
+        self.visited.add(fi.qualname)
+        saved = self.kinds
+        self.kinds = self.local_kinds(fi, ctx, kinds)
+        try:
+            out = self.block(fi.node.body, fi, ctx, class_args, depth)
+        finally:
+            self.active.discard(key)
+            self.kinds = saved
+        seen = {}
+        for e in out:
+            seen.setdefault(e.key(), e)
+        res = list(seen.values())
+        self.memo[key] = res
+        return res
+
+    def entry(self, fi, ctx=None, class_args=None):
+        """summaries are memoised; a recursive cycle is cut once and reported (the reachable graph is recursion-free
+        on today's tree, see C07.T1)"""
+        return self.function(fi, ctx, class_args)
+
+    # ------------------------------------------------------------------ statements
+    def block(self, stmts, fi, ctx, ca, depth):
+        out = []
+        for s in stmts:
+            out.extend(self.stmt(s, fi, ctx, ca, depth))
+        return out
+
+    def stmt(self, s, fi, ctx, ca, depth):
+        out = []
+        if isinstance(s, (ast.FunctionDef, ast.AsyncFunctionDef, ast.ClassDef)):
+            return out
+        if isinstance(s, ast.Raise):
+            if s.exc is None:
+                return [Esc('<re-raise>', None, fi, s, 'raise')]
+            # raise err_raiser(...) : the call itself raises
+            out.extend(self.expr(s.exc, fi, ctx, ca, depth))
+            name, info = self.exc_class(s.exc, fi, ctx, ca)
+            if name is None:
+                if isinstance(s.exc, ast.Call):
+                    tg = self.res.resolve(s.exc, fi, ctx, class_args=ca)
+                    if tg:
+                        return out  # a call to a (no-return) library function: its escapes were added above
+                out.append(Esc('<unknown>', None, fi, s, norm(s)[:80]))
+            else:
+                out.append(Esc(name, info, fi, s, norm(s.exc)[:80]))
+            return out
+        if isinstance(s, ast.Assert):
+            out.extend(self.expr(s.test, fi, ctx, ca, depth))
+            out.append(Esc('AssertionError', None, fi, s, 'assert ' + norm(s.test)[:80]))
+            return out
+        if isinstance(s, ast.Try):
+            body = self.block(s.body, fi, ctx, ca, depth)
+            rest = list(body)
+            for h in s.handlers:
+                ht = self.handler_types(h, fi)
+                caught = [e for e in rest if self.catches(ht, e)]
+                rest = [e for e in rest if not self.catches(ht, e)]
+                hb = self.block(h.body, fi, ctx, ca, depth)
+                for e in hb:
+                    if e.cls == '<re-raise>':
+                        out.extend(caught)
+                    else:
+                        out.append(e)
+            out.extend(rest)
+            out.extend(self.block(s.orelse, fi, ctx, ca, depth))
+            out.extend(self.block(s.finalbody, fi, ctx, ca, depth))
+            return out
+        if isinstance(s, ast.If):
+            out.extend(self.expr(s.test, fi, ctx, ca, depth))
+            t = self.fold_type_test(s.test, fi)
+            if t is not False:
+                out.extend(self.block(s.body, fi, ctx, ca, depth))
+            if t is not True:
+                out.extend(self.block(s.orelse, fi, ctx, ca, depth))
+            return out
+        if isinstance(s, (ast.For, ast.AsyncFor)):
+            out.extend(self.iteration(s.iter, fi, ctx, ca, depth))
+            out.extend(self.block(s.body, fi, ctx, ca, depth))
+            out.extend(self.block(s.orelse, fi, ctx, ca, depth))
+            return out
+        if isinstance(s, ast.While):
+            out.extend(self.expr(s.test, fi, ctx, ca, depth))
+            out.extend(self.block(s.body, fi, ctx, ca, depth))
+            out.extend(self.block(s.orelse, fi, ctx, ca, depth))
+            return out
+        if isinstance(s, ast.With):
+            for it in s.items:
+                out.extend(self.expr(it.context_expr, fi, ctx, ca, depth))
+            out.extend(self.block(s.body, fi, ctx, ca, depth))
+            return out
+        for c in ast.iter_child_nodes(s):
+            if isinstance(c, ast.expr):
+                out.extend(self.expr(c, fi, ctx, ca, depth))
+        return out
+
+    def iteration(self, it, fi, ctx, ca, depth):
+        """`for x in <it>`: evaluating <it> plus iterating it (generator bodies / __iter__)"""
+        out = self.expr(it, fi, ctx, ca, depth)
+        out.extend(self.iter_escapes(it, fi, ctx, ca, depth))
+        return out
+
+    def iter_escapes(self, e, fi, ctx, ca, depth):
+        """escapes of iterating over the value of e when it is an instance of a library class with __iter__"""
+        lt = self.res.local_types(fi, ctx)
+        t = self.res.expr_type(e, fi, ctx, lt)
+        if t and t[0] == 'inst':
+            it = self.repo.lookup_method(t[1], '__iter__')
+            if it is not None:
+                return [x.via('%s -> %s' % (fi.qualname, it.qualname)) for x in self.function(it, t[1], None, depth + 1)]
+        return []
+
+    # ------------------------------------------------------------------ expressions
+    def expr(self, e, fi, ctx, ca, depth):
+        out = []
+        if e is None:
+            return out
+        for n in self.walk_expr(e):
+            if isinstance(n, ast.Call):
+                out.extend(self.call(n, fi, ctx, ca, depth))
+            elif isinstance(n, (ast.GeneratorExp, ast.ListComp, ast.SetComp, ast.DictComp)):
+                for g in n.generators:
+                    out.extend(self.iter_escapes(g.iter, fi, ctx, ca, depth))
+        return out
+
+    def walk_expr(self, e):
+        stack = [e]
+        while stack:
+            n = stack.pop()
+            yield n
+            if isinstance(n, ast.Lambda):
+                continue
+            stack.extend(ast.iter_child_nodes(n))
+
+    def call(self, c, fi, ctx, ca, depth):
+        out = []
+        fn = norm(c.func)
+        # builtins that iterate their argument
+        if fn in ITER_BUILTINS and c.args:
+            out.extend(self.iter_escapes(c.args[0], fi, ctx, ca, depth))
+        if depth > 40:
+            return out
+        tg = self.res.resolve(c, fi, ctx, class_args=ca)
+        if tg is None:
+            self.unresolved.setdefault((fi.qualname, norm(c)[:70]), c)
+            return out
+        for t in tg:
+            b = bind_args(c, t)
+            nca = {}
+            for pn, a in b.items():
+                v = self.repo.fold(a, fi.module, cls=fi.cls)
+                if isinstance(v, ClassRef):
+                    nca[pn] = v.info
+                elif isinstance(a, ast.Name) and ca and a.id in ca:
+                    nca[pn] = ca[a.id]
+            # *args forwarding of a class (err_raiser(cls, *args) -> cls(*args, ...)): keep the caller's class args
+            ks = {}
+            for pn, a in b.items():
+                k = self.expr_kind(a, fi)
+                if k:
+                    ks[pn] = k
+            sub = self.function(t.fi, t.ctx, nca, depth + 1, ks)
+            is_gen = any(isinstance(n, (ast.Yield, ast.YieldFrom)) for n in walk_no_nested(t.fi.node))
+            if is_gen:
+                # a generator function does not raise when called; its body runs on iteration (see iteration())
+                par = getattr(c, '_parent', None)
+                if not (isinstance(par, (ast.For, ast.comprehension)) and par.iter is c):
+                    # consumed elsewhere (list(x.raw_iter()), next(...)): be conservative and include it
+                    pass
+            step = '%s -> %s' % (fi.qualname, t.fi.qualname)
+            for e in sub:
+                if self.is_dead(e, c, fi, ctx, t, b):
+                    continue
+                out.append(e.via(step))
+        return out
+
+    # ------------------------------------------------------------------ value kinds (bytes / int) for isinstance tests
+    BYTES_ATTRS = {'digest', 'serialize', 'to_bytes', 'getvalue', 'read', 'encode', 'tobytes', 'raw'}
+    BYTES_FUNCS = {'bitcoin.core.serialize.ser_read', 'bitcoin.core.serialize.Hash', 'bitcoin.core.serialize.Hash160',
+                   'bitcoin.core.contrib.ripemd160.ripemd160', 'bitcoin.core._bignum.bn2vch', 'bitcoin.core.script.CScriptOp.encode_op_pushdata',
+                   'bitcoin.core.serialize.BytesSerializer.stream_deserialize', 'bitcoin.core.serialize.VarStringSerializer.stream_deserialize',
+                   'bitcoin.core.x', 'bitcoin.core.lx', 'bitcoin.base58.decode', 'bitcoin.core.script.FindAndDelete'}
+    ELEM_SEQS = {'stack', 'altstack', 'stackCopy'}
+
+    def expr_kind(self, e, fi):
+        if isinstance(e, ast.Constant):
+            if isinstance(e.value, bytes):
+                return 'bytes'
+            if isinstance(e.value, int) and not isinstance(e.value, bool):
+                return 'int'
+            return None
+        if isinstance(e, ast.Name):
+            return self.kinds.get(e.id)
+        if isinstance(e, ast.BinOp) and isinstance(e.op, ast.Add):
+            a, b = self.expr_kind(e.left, fi), self.expr_kind(e.right, fi)
+            return a if a == b else None
+        if isinstance(e, ast.Subscript):
+            if isinstance(e.value, ast.Name) and e.value.id in self.ELEM_SEQS and fi.module.name == 'bitcoin.core.scripteval':
+                return None if isinstance(e.slice, ast.Slice) else 'bytes'
+            k = self.expr_kind(e.value, fi)
+            if k == 'bytes':
+                return 'bytes' if isinstance(e.slice, ast.Slice) else 'int'
+            return None
+        if isinstance(e, ast.Call):
+            f = e.func
+            if isinstance(f, ast.Attribute):
+                if f.attr == 'pop' and isinstance(f.value, ast.Name) and f.value.id in self.ELEM_SEQS and fi.module.name == 'bitcoin.core.scripteval':
+                    return 'bytes'  # stack elements are byte strings (invariant checked by C07.K1)
+                if f.attr in self.BYTES_ATTRS:
+                    return 'bytes'
+            v = self.repo.fold(f, fi.module, cls=fi.cls)
+            if isinstance(v, FuncRef) and v.info.qualname in self.BYTES_FUNCS:
+                return 'bytes'
+            if isinstance(v, ClassRef) and self.repo.is_subclass(v.info, 'bytes'):
+                return 'bytes'
+            if isinstance(v, ClassRef) and self.repo.is_subclass(v.info, 'int'):
+                return 'int'
+            if isinstance(v, ExternalRef) and v.name in ('bytes', 'bytearray'):
+                return 'bytes'
+            if isinstance(v, ExternalRef) and v.name in ('int', 'len'):
+                return 'int'
+        return None
+
+    def local_kinds(self, fi, ctx, kinds):
+        out = dict(kinds)
+        for n in walk_no_nested(fi.node):
+            if isinstance(n, ast.Assign) and len(n.targets) == 1 and isinstance(n.targets[0], ast.Name):
+                nm = n.targets[0].id
+                if nm in fi.params:
+                    out.pop(nm, None)  # parameter reassigned: its call-site kind no longer applies
+                    continue
+                saved = self.kinds
+                self.kinds = out
+                k = self.expr_kind(n.value, fi)
+                self.kinds = saved
+                cnt = sum(1 for m in walk_no_nested(fi.node) if isinstance(m, ast.Assign) and any(isinstance(t, ast.Name) and t.id == nm for t in m.targets))
+                if k and cnt == 1:
+                    out[nm] = k
+        return out
+
+    def fold_type_test(self, test, fi):
+        """isinstance(<name of known kind>, T) -> True / False ; anything else -> None"""
+        if isinstance(test, ast.BoolOp):
+            vals = [self.fold_type_test(v, fi) for v in test.values]
+            if isinstance(test.op, ast.Or):
+                if any(v is True for v in vals):
+                    return True
+                if all(v is False for v in vals):
+                    return False
+                return None
+            if any(v is False for v in vals):
+                return False
+            if all(v is True for v in vals):
+                return True
+            return None
+        if isinstance(test, ast.UnaryOp) and isinstance(test.op, ast.Not):
+            v = self.fold_type_test(test.operand, fi)
+            return None if v is None else (not v)
+        if isinstance(test, ast.Call) and norm(test.func) == 'isinstance' and len(test.args) == 2 and isinstance(test.args[0], ast.Name):
+            k = self.kinds.get(test.args[0].id)
+            if k is None:
+                return None
+            ts = test.args[1].elts if isinstance(test.args[1], ast.Tuple) else [test.args[1]]
+            names = set()
+            for t in ts:
+                v = self.repo.fold(t, fi.module, cls=fi.cls)
+                if isinstance(v, ClassRef):
+                    names.add('bytes' if self.repo.is_subclass(v.info, 'bytes') and k == 'plainbytes' else v.info.name)
+                else:
+                    names.add(norm(t))
+            if k == 'bytes':
+                if names & {'bytes', 'bytearray'}:
+                    return True
+                if names <= {'int', 'str', 'CScriptOp', 'float'}:
+                    return False
+            if k == 'int':
+                if 'int' in names:
+                    return True
+                if names <= {'bytes', 'bytearray', 'str'}:
+                    return False
+        return None
+
+    # ------------------------------------------------------------------ pruning
+    def is_dead(self, esc, call, fi, ctx, target, binding):
+        """call-site specialisation: a guard of the callee on one parameter cannot fire for the argument range known at
+        this call site (value just read with a struct format / a fixed-size read / a constant)"""
+        if esc.fi is not target.fi or esc.path:
+            return False
+        node = esc.node
+        if isinstance(node, ast.Assert):
+            test, negate = node.test, True
+        else:
+            g = enclosing_if(node)
+            if g is None or not any(node is x for b in g.body for x in ast.walk(b)):
+                return False
+            test, negate = g.test, False
+        funcs = {id(n.func) for n in ast.walk(test) if isinstance(n, ast.Call)}
+        names = {n.id for n in ast.walk(test) if isinstance(n, ast.Name) and id(n) not in funcs}
+        if len(names) != 1:
+            return False
+        p = list(names)[0]
+        if p not in binding:
+            d = target.fi.defaults().get(p)
+            if d is None:
+                return False
+            dv = self.repo.fold(d, target.fi.module, cls=target.fi.cls)
+            if dv is UNKNOWN:
+                return False
+            r = self.repo.fold(test, target.fi.module, cls=target.fi.cls, env={p: dv})
+            if r is UNKNOWN:
+                return False
+            fires = (not r) if negate else bool(r)
+            if not fires:
+                self.applied.append('guard `%s` of %s is dead at %s:%d: parameter %s takes its default' % (norm(test)[:50], target.fi.qualname, fi.module.relpath, call.lineno, p))
+            return not fires
+        a = binding[p]
+        if isinstance(a, ast.Attribute) and a.attr == p:
+            # copy constructor: the field of an already constructed object of the same family is passed on unchanged;
+            # the constructor's range check re-validates what the source object's constructor enforced
+            self.applied.append('guard `%s` of %s re-validates field `%s` of an existing object in %s' % (norm(test)[:50], target.fi.qualname, norm(a), fi.qualname))
+            return True
+        rng = self.arg_range(a, fi)
+        if rng is None:
+            return False
+        kind, lo, hi = rng
+        # candidate points: the range ends and every constant of the guard +-1 (a finite set of orderings)
+        consts = [self.repo.fold(n, target.fi.module) for n in ast.walk(test) if isinstance(n, (ast.Constant, ast.Name, ast.BinOp))]
+        pts = {lo, hi}
+        for c in consts:
+            if isinstance(c, int) and not isinstance(c, bool):
+                for d in (-1, 0, 1):
+                    if lo <= c + d <= hi:
+                        pts.add(c + d)
+        for v in pts:
+            env = {p: (b'\x00' * v if kind == 'len' else v)} if (kind != 'len' or v < 1 << 16) else None
+            if env is None:
+                return False
+            r = self.repo.fold(test, target.fi.module, cls=target.fi.cls, env=env)
+            if r is UNKNOWN:
+                return False
+            fires = (not r) if negate else bool(r)
+            if fires:
+                return False
+        self.applied.append('guard `%s` of %s is dead at %s:%d: argument %s has range %s [%s, %s]'
+                            % (norm(test)[:50], target.fi.qualname, fi.module.relpath, call.lineno, p, kind, lo, hi))
+        return True
+
+    def arg_range(self, a, fi):
+        """('int'|'len', lo, hi) of an argument expression of a reader, from how the value was just read"""
+        from .layout import fmt_info, fmt_str
+        v = self.repo.fold(a, fi.module, cls=fi.cls)
+        if isinstance(v, int) and not isinstance(v, bool):
+            return ('int', v, v)
+        if isinstance(v, bytes):
+            return ('len', len(v), len(v))
+        if not isinstance(a, ast.Name):
+            return None
+        defs = [n.value for n in walk_no_nested(fi.node) if isinstance(n, ast.Assign) and len(n.targets) == 1 and norm(n.targets[0]) == a.id]
+        if not defs:
+            return None
+        out = None
+        for d in defs:
+            r = self.def_range(d, fi)
+            if r is None:
+                return None
+            if out is None:
+                out = r
+            elif out[0] != r[0]:
+                return None
+            else:
+                out = (out[0], min(out[1], r[1]), max(out[2], r[2]))
+        return out
+
+    def def_range(self, d, fi):
+        from .layout import fmt_info, fmt_str
+        if isinstance(d, ast.Subscript) and isinstance(d.value, ast.Call) and norm(d.value.func) == 'struct.unpack' and self.repo.fold(d.slice, fi.module) == 0:
+            fmt = self.repo.fold(d.value.args[0], fi.module)
+            if fmt is not UNKNOWN:
+                try:
+                    w, order, rng = fmt_info(fmt_str(fmt))
+                except Exception:
+                    return None
+                if rng:
+                    return ('int', rng[0], rng[1])
+        if isinstance(d, ast.Call):
+            fv = self.repo.fold(d.func, fi.module, cls=fi.cls)
+            if isinstance(fv, FuncRef) and fv.info.qualname == 'bitcoin.core.serialize.ser_read' and len(d.args) == 2:
+                n = self.repo.fold(d.args[1], fi.module)
+                if isinstance(n, int):
+                    return ('len', n, n)
+        return None
+
+# ------------------------------------------------------------------------------------------------ contract classes
+def enclosing_if(node):
+    cur = getattr(node, '_parent', None)
+    while cur is not None and not isinstance(cur, (ast.If, ast.FunctionDef, ast.AsyncFunctionDef)):
+        cur = getattr(cur, '_parent', None)
+    return cur if isinstance(cur, ast.If) else None
+
+
+def contract_class(repo, esc, ctor_ranges=True):
+    """structural classification of an escaping raise/assert as a documented precondition. -> reason or None"""
+    fi, node = esc.fi, esc.node
+    g = enclosing_if(node)
+    params = set(fi.params)
+    if esc.cls == 'TypeError' and g is not None and 'isinstance(' in norm(g.test):
+        return 'argument-type contract (TypeError under `%s`)' % norm(g.test)[:60]
+    if esc.cls == 'OpenSSLException' or (esc.info is not None and esc.info.name == 'OpenSSLException'):
+        return 'resource failure reported by libcrypto (allocator errcheck hook)'
+    if esc.cls == 'NotImplementedError':
+        return None
+    if ctor_ranges and fi.name in ('__init__', '__new__') and esc.cls in ('ValueError', 'AssertionError'):
+        # wire-range preconditions: comparison of a constructor parameter (or its len) with constants
+        test = g.test if (g is not None and isinstance(node, ast.Raise)) else (node.test if isinstance(node, ast.Assert) else None)
+        if test is not None:
+            funcs = {id(n.func) for n in ast.walk(test) if isinstance(n, ast.Call)}
+            names = {n.id for n in ast.walk(test) if isinstance(n, ast.Name) and id(n) not in funcs}
+            others = [n for n in ast.walk(test) if isinstance(n, (ast.Call,)) and norm(n.func) != 'len']
+            if names and names <= params and not others and any(isinstance(n, ast.Compare) for n in ast.walk(test)):
+                return 'wire-range precondition of the constructor (`%s`)' % norm(test)[:60]
+    if isinstance(node, ast.Assert) and fi.name in ('stream_serialize', 'stream_deserialize'):
+        t = norm(node.test)
+        import re
+        if re.match(r'^len\((self\.)?\w+\) == \d+$', t) or re.match(r'^len\(self\.\w+(\.\w+)*\) <= len\(self\.\w+\)$', t):
+            return 'field-shape precondition of the serialiser (`%s`)' % t
+    if esc.cls == 'ValueError' and g is not None:
+        # beyond-format sizes: final else of a length-threshold chain whose last bound is >= 2**32-1
+        par = g
+        if node in getattr(par, 'orelse', []) or any(node is x for x in par.orelse):
+            c = canon_guard(par.test, repo, fi.module, fi.cls)
+            import re
+            m = re.match(r'^len\(\w+\) < (\d+)$', c)
+            if m and int(m.group(1)) >= (1 << 32):
+                return 'beyond-format size (more than 2**32-1 bytes)'
+        if 'varint must be non-negative' in esc.text or (isinstance(g.test, ast.Compare) and norm(g.test) in ('i < 0',) and fi.qualname.endswith('VarIntSerializer.stream_serialize')):
+            return 'length precondition (a count is never negative)'
+    return None
+
+
+# ------------------------------------------------------------------------------------------------ dead sites
+def dead_by_domain(repo, fi, var, domain, pinned=True):
+    """statements of fi that no path reaches when `var` ranges over `domain` (guards folded by the TABLE engine)
+    -> set of ids of raise/assert nodes reached"""
+    reached = set()
+    tr = Tracer(repo, fi.module, cls=fi.cls, noreturn=['err_raiser'])
+    tr.pinned = {var}
+    for v in domain:
+        paths = tr.trace(fi.node.body, {var: v})
+        for p in paths:
+            for s in p.stmts():
+                reached.add(id(s))
+            if p.endnode is not None:
+                reached.add(id(p.endnode))
+    return reached
+
+
+def rule_entry(rule, repo, esc_engine, fi, allowed, label, ctx=None, class_args=None, justified=None, ctor_ranges=True):
+    """every escape of entry `fi` lies in the allowed families, is a contract class, or is a justified-dead site"""
+    escs = esc_engine.entry(fi, ctx, class_args)
+    n_ok = 0
+    just = justified or {}
+    for e in escs:
+        if e.cls in ('<re-raise>',):
+            continue
+        key = '%s:%s:%s:%s' % (label, e.cls, e.fi.qualname.replace('bitcoin.', ''), e.text[:60])
+        if e.cls == '<unknown>':
+            rule.undecided(key, e.site(), 'raise of an unresolvable exception expression `%s`' % e.text)
+            continue
+        if esc_engine.in_family(e, allowed):
+            n_ok += 1
+            continue
+        # for readers the constructor range checks directly behind a read must be proven dead by the call-site ranges
+        direct = bool(e.path) and e.path[-1].split(' -> ')[0].rsplit('.', 1)[-1] in ('stream_deserialize', 'msg_deser')
+        c = contract_class(repo, e, ctor_ranges or not direct)
+        if c is not None:
+            rule.note('%s: %s at %s excluded: %s' % (label, e.cls, e.site(), c))
+            n_ok += 1
+            continue
+        j = None
+        for (jq, jt), jv in just.items():
+            if jq == e.fi.qualname and (e.text.startswith(jt) or jt.startswith(e.text)):
+                j = jv
+        if j is not None:
+            ok, why = j(e) if callable(j) else (True, j)
+            if ok:
+                rule.note('%s: %s `%s` at %s is dead: %s' % (label, e.cls, e.text, e.site(), why))
+                n_ok += 1
+                continue
+        rule.violated(key, e.site(), '%s can escape from %s: `%s` in %s (allowed: %s)'
+                      % (e.cls, label, e.text, e.fi.qualname, ', '.join(x.name if isinstance(x, ClassInfo) else x for x in allowed)), path=list(e.path))
+    rule.ok('%s:escapes' % label, fi.site, '%d escaping raise sites analysed, all within the allowed family / contract classes; %d functions visited' % (len(escs), len(esc_engine.visited)))
+    return escs
 
 
 def rule_C01_E2(ctx, repo):
-    pass
+    from .layout import LayoutEngine
+    r = ctx.rule('C01.E2', 'from deserialize() of the nine wire classes only the SerializationError family escapes', engine='ESCAPE', floor=9)
+    eng = LayoutEngine(repo)
+    res = Resolver(repo, eng)
+    ee = Escape(repo, res)
+    ser_err = repo.get_class('bitcoin.core.serialize.SerializationError')
+    des = repo.get_function('bitcoin.core.serialize.Serializable.deserialize')
+    just = justified_table(repo)
+    for q in ('bitcoin.core.COutPoint', 'bitcoin.core.CTxIn', 'bitcoin.core.CTxOut', 'bitcoin.core.CTxInWitness', 'bitcoin.core.CTxWitness',
+              'bitcoin.core.script.CScriptWitness', 'bitcoin.core.CTransaction', 'bitcoin.core.CBlockHeader', 'bitcoin.core.CBlock',
+              'bitcoin.core.CMutableOutPoint', 'bitcoin.core.CMutableTxIn', 'bitcoin.core.CMutableTxOut', 'bitcoin.core.CMutableTransaction'):
+        ci = repo.get_class(q)
+        if ci.name == 'CTxWitness':
+            # its reader is an instance method taking the expected count from self
+            fi = repo.lookup_method(ci, 'stream_deserialize')
+            rule_entry(r, repo, ee, fi, [ser_err], ci.name + '.stream_deserialize', ctx=ci, justified=just, ctor_ranges=False)
+            continue
+        rule_entry(r, repo, ee, des, [ser_err], ci.name + '.deserialize', ctx=ci, class_args={'cls': ci}, justified=just, ctor_ranges=False)
+    for (f, t) in sorted(ee.unresolved)[:12]:
+        r.note('unresolved call: %s in %s' % (t, f))
+    for a in sorted(set(ee.applied))[:30]:
+        r.note(a)
+
+
+def justified_table(repo):
+    """asserts/raises whose infeasibility needs an argument; each entry is validated programmatically where possible"""
+    out = {}
+
+    # CBlock.__init__: the Merkle check compares with the computed root only when transactions are given; the reader
+    # builds the header through the base constructor with vtx=() (no transactions), so the raise is not reachable from
+    # stream_deserialize.  Validated: CBlock.stream_deserialize calls super().stream_deserialize, whose `cls(...)`
+    # passes six positional arguments (vtx keeps its empty default).
+    def merkle_dead(e):
+        blk = repo.get_class('bitcoin.core.CBlock')
+        rd = repo.lookup_method(blk, 'stream_deserialize')
+        calls = [norm(c) for c in ast.walk(rd.node) if isinstance(c, ast.Call) and norm(c.func).endswith('.stream_deserialize') and 'super(' in norm(c.func)]
+        hdr = repo.get_class('bitcoin.core.CBlockHeader')
+        hr = repo.lookup_method(hdr, 'stream_deserialize')
+        rets = [n.value for n in ast.walk(hr.node) if isinstance(n, ast.Return) and isinstance(n.value, ast.Call) and norm(n.value.func) == 'cls']
+        init = repo.lookup_method(blk, '__init__')
+        d = init.defaults().get('vtx')
+        ok = bool(calls) and len(rets) == 1 and len(rets[0].args) == 6 and not rets[0].keywords and d is not None and repo.fold(d, init.module) == ()
+        g = enclosing_if(e.node)
+        under_vtx = False
+        while g is not None:
+            if norm(g.test) == 'vtx' and any(e.node is x for b in g.body for x in ast.walk(b)):
+                under_vtx = True
+            g = enclosing_if(g)
+        ok = ok and under_vtx
+        return ok, 'the reader constructs the block with the default vtx=(), and the check sits under `if vtx:`'
+    out[('bitcoin.core.CBlock.__init__', "CheckBlockError('CBlock : hashMerkleRoot is not compatible with vtx')")] = merkle_dead
+    return out
